@@ -73,7 +73,7 @@ def items(tier):
     ]
     for ident, cfg in zoo:
         for rel in (False, True):
-            if rel and tier == "quick" and ident not in ("einsum-dot", "MakeComplex", "math-poly"):
+            if rel and tier == "quick" and ident not in ("einsum-dot", "einsum-dot-cplx", "MakeComplex", "math-poly"):
                 continue
             for seeds in ("use_df", "random"):
                 if seeds == "random" and tier == "quick" and ident not in ("einsum-dot", "RealPart"):
@@ -84,6 +84,10 @@ def items(tier):
     add("correct-user-module", mod="wrong", kappa_one=True, relative_dx=False, seeds="use_df")
     add("zero-structure", mod="einsum", expr="dot2", relative_dx=False, seeds="use_df", zero_entry=True)
     add("zero-structure-off", mod="einsum", expr="dot2", relative_dx=False, seeds="use_df", zero_entry=True, keep_zero=False)
+    # inputs that are SignalSlices whose getter returns a copy (index array / boolean mask): the base signal must be restored
+    add("slice-indexarray", mod="slice", index="array", relative_dx=False, seeds="use_df")
+    add("slice-boolmask", mod="slice", index="mask", relative_dx=True, seeds="use_df")
+    add("slice-basic", mod="slice", index="basic", relative_dx=False, seeds="use_df")
     add("network-fromto", mod="network", relative_dx=False, seeds="use_df")
     add("network-all", mod="network", relative_dx=False, seeds="use_df", allsig=True)
     return out
@@ -112,6 +116,14 @@ def _build(V, cfg):
         sx = pym.Signal("x", x)
         m = Quad(sx)
         return m, [sx], m.sig_out, [sx] + list(m.sig_out), dict(kappa=kappa, a=a, x=x)
+    if cfg["mod"] == "slice":
+        x = V.reals("x", 3, nonzero=True)
+        z = V.reals("z", 2, nonzero=True)
+        sx, sz = pym.Signal("x", x), pym.Signal("z", z)
+        index = {"array": np.array([2, 0]), "mask": np.array([True, False, True]), "basic": slice(1, 3)}[cfg["index"]]
+        ssl = sx[index]
+        m = pym.EinSum([ssl, sz], expression="i,i->")
+        return m, [ssl, sz], m.sig_out, [sx, ssl, sz] + list(m.sig_out), dict(base=[sx])
     if cfg["mod"] == "network":
         nn = 1 if cfg.get("allsig") else 2
         x = V.reals("x", nn, nonzero=True)
@@ -135,6 +147,7 @@ def _build(V, cfg):
 
 def scenario(V, P, cfg):
     import pymoto as pym
+    from pymoto.core_objects import SignalSlice as _SignalSlice
     blk, ins, outs, allsig, extra = _build(V, cfg)
     isnet = cfg["mod"] == "network"
     dx = V.real("dx", positive=True, default=0.001)
@@ -144,6 +157,8 @@ def scenario(V, P, cfg):
         ins = list(blk.sig_in)       # a Network derives both lists from sets: take its own order
         outs = list(blk.sig_out)
     snap_states = [_snap(s.state) for s in ins]
+    base_sigs = extra.get("base", []) if isinstance(extra, dict) else []
+    snap_base = [_snap(s.state) for s in base_sigs]
     y0 = [dense_entries(s.state) for s in outs]
     if V.symbolic:
         for s in ins:        # perturbed entries are non-zero (the zero-structure items use literal zeros)
@@ -195,8 +210,17 @@ def scenario(V, P, cfg):
     # (1) state restored, no sensitivity left
     for k, (s, sn) in enumerate(zip(ins, snap_states)):
         P.arrays_eq("state-restored[%d]" % k, dense_entries(s.state), sn, kind="state-restored")
+    for k, (s, sn) in enumerate(zip(base_sigs, snap_base)):
+        P.arrays_eq("base-state-restored[%d]" % k, dense_entries(s.state), sn, kind="state-restored")
     for k, s in enumerate(allsig):
-        P.holds("no-sensitivity-left[%d]" % k, s.sensitivity is None, kind="no-sensitivity-left")
+        sens = s.sensitivity
+        if sens is not None and (isinstance(s, _SignalSlice) or s in base_sigs):
+            # a slice resets by zeroing its part of the base signal's sensitivity (by design, see C18): "nothing left
+            # set" is then an all-zero array
+            P.arrays_eq("no-sensitivity-left[%d]" % k, dense_entries(sens), np.zeros(np.shape(sens), dtype=int).astype(object),
+                        kind="no-sensitivity-left")
+            continue
+        P.holds("no-sensitivity-left[%d]" % k, sens is None, kind="no-sensitivity-left")
     # (2) the seeds that were used: use_df, or the random ones (recover them from df_an is not possible from outside;
     #     with random seeds the analytic/numeric pair is checked against each other through the response only)
     if seeds_random:
@@ -226,7 +250,7 @@ def scenario(V, P, cfg):
             is_zero = (not isinstance(e, (R, C))) and e == 0
             if is_zero and cfg.get("keep_zero", True) and np.ndim(xs):
                 continue
-            cplx_in = isinstance(e, C)
+            cplx_in = isinstance(e, (C, complex, np.complexfloating))
             sf = (abs(e) if cfg["relative_dx"] else 1)
             for part in (("re", "im") if cplx_in else ("re",)):
                 for j, so in enumerate(outs):
@@ -324,7 +348,7 @@ def _snap(x):
 
 def _perturbed_response(blk, sig, idx, delta, out_sig):
     """Real response of the block with one entry of one input perturbed; state restored afterwards."""
-    st = sig.state
+    st = _snap(sig.state)      # a copy: the getter of a basic SignalSlice returns a view of the base state
     if np.ndim(st):
         old = st[idx]
         new = st.copy()
